@@ -137,7 +137,11 @@ def _in_library(tb):
 
 
 def run_cases(mod, ctx, cases, probe=False):
+    trace = os.environ.get('SFMON_TRACE_CASES')  # debugging aid: the case about to run, for post-mortem of a dying shard
     for case in cases:
+        if trace:
+            with open(trace, 'w') as f:
+                f.write(repr(case))
         ctx.current_case = case
         ctx.current_is_probe = probe
         ctx.cases += 1
